@@ -389,6 +389,17 @@ func (x *Explorer) node(n ast.Node, states []*State) []*State {
 		for _, l := range s.Lhs {
 			states = x.lhsParts(l, states)
 		}
+		// `b := A && B` (a bool local defined by a test whose outcome is not known yet): the two outcomes are
+		// followed separately, so that a later `if b` knows what A and B were
+		if len(s.Lhs) == len(s.Rhs) && (s.Tok == token.DEFINE || s.Tok == token.ASSIGN) {
+			for i, l := range s.Lhs {
+				if id, ok := Unparen(l).(*ast.Ident); ok && id.Name != "_" {
+					if v, ok := ObjOf(x.Fn.Info(), id).(*types.Var); ok && !v.IsField() && v.Pkg() != nil && v.Parent() != v.Pkg().Scope() {
+						states = x.forkOnBool(s.Rhs[i], states)
+					}
+				}
+			}
+		}
 		Assigns(s, func(lhs, rhs ast.Expr, tok token.Token) {
 			for _, st := range states {
 				x.assign(lhs, rhs, s, st)
@@ -458,6 +469,50 @@ func (x *Explorer) node(n ast.Node, states []*State) []*State {
 		return x.expr(s, states)
 	}
 	return states
+}
+
+// forkOnBool splits every state in which the truth of the non-constant bool expression e (a comparison or a
+// logical combination) is not known into one where it holds and one where it does not.
+func (x *Explorer) forkOnBool(e ast.Expr, states []*State) []*State {
+	tv, ok := x.Fn.Info().Types[e]
+	if !ok || tv.Value != nil || tv.Type == nil {
+		return states
+	}
+	if bt, ok := tv.Type.Underlying().(*types.Basic); !ok || bt.Info()&types.IsBoolean == 0 {
+		return states
+	}
+	switch b := Unparen(e).(type) {
+	case *ast.BinaryExpr:
+		switch b.Op {
+		case token.LAND, token.LOR, token.EQL, token.NEQ, token.LSS, token.LEQ, token.GTR, token.GEQ:
+		default:
+			return states
+		}
+	case *ast.UnaryExpr:
+		if b.Op != token.NOT {
+			return states
+		}
+	default:
+		return states
+	}
+	if len(states) > 64 {
+		return states
+	}
+	var out []*State
+	for _, st := range states {
+		if x.Eval(e, st) != unknown {
+			out = append(out, st)
+			continue
+		}
+		t, f := st.Clone(), st
+		if x.Assume(e, true, t) {
+			out = append(out, t)
+		}
+		if x.Assume(e, false, f) {
+			out = append(out, f)
+		}
+	}
+	return out
 }
 
 // lhsParts evaluates the operands of an assignment target (index expressions, receivers).
@@ -596,7 +651,27 @@ func (x *Explorer) assign(lhs, rhs ast.Expr, stmt ast.Node, st *State) {
 	if x.Hooks.PreAssign != nil {
 		x.Hooks.PreAssign(x, lhs, rhs, stmt, st)
 	}
+	// a bool variable assigned an expression whose truth is known on this path takes that truth
+	// (`ok := found` after a helper's `found = true`; evaluated before the facts about lhs die)
+	rhsTruth := unknown
+	if rhs != nil {
+		if tv, ok := x.Fn.Info().Types[rhs]; ok && tv.Value == nil && tv.Type != nil {
+			if bt, ok := tv.Type.Underlying().(*types.Basic); ok && bt.Info()&types.IsBoolean != 0 {
+				if _, isId := Unparen(lhs).(*ast.Ident); isId {
+					rhsTruth = x.Eval(rhs, st)
+				}
+			}
+		}
+	}
 	x.kill(lhs, st)
+	if rhsTruth != unknown {
+		if id, ok := Unparen(lhs).(*ast.Ident); ok && id.Name != "_" {
+			if k, ok := x.key(id); ok {
+				x.meta(k, id)
+				st.Facts[k] = rhsTruth == yes
+			}
+		}
+	}
 	// a bool variable or field assigned a constant becomes a fact
 	if rhs != nil {
 		target := Unparen(lhs)
